@@ -40,6 +40,23 @@ impl Provenance {
             other => Provenance::Field(Box::new(other.clone()), index),
         }
     }
+
+    /// The provenance to store with a variable. `Parameter` is relative to the scope it was
+    /// observed in, but a variable outlives that scope's position: read again inside a nested
+    /// block it would name that block's parameter instead. So it is not kept.
+    pub fn for_binding(&self) -> Provenance {
+        match self {
+            Provenance::Parameter => Provenance::Unknown,
+            Provenance::Field(parent, index) => match parent.for_binding() {
+                Provenance::Unknown => Provenance::Unknown,
+                parent => Provenance::Field(Box::new(parent), *index),
+            },
+            Provenance::Tuple(fields) => {
+                Provenance::Tuple(fields.iter().map(Provenance::for_binding).collect())
+            }
+            other => other.clone(),
+        }
+    }
 }
 
 /// Type narrowings in effect within a scope.
